@@ -176,22 +176,27 @@ class InitOwnership(FunctionContract):
         self.qualname = {'model': 'fsic.core.models.BaseModel.__init__', 'linker': 'fsic.core.linkers.BaseLinker.__init__',
                          'alias': 'fsic.extensions.common.AliasMixin.__init__', 'interface': 'fsic.core.interfaces.ModelInterface.__init__'}[which]
 
+    def scenarios(self):
+        # parser-built classes have `CHECK = ENDOGENOUS` (one list object under two names); hand-written ones usually two lists
+        return ['separate-class-lists', 'check-is-endogenous'] if self.which in ('model', 'linker') else ['default']
+
     def setup(self, interp, scenario):
         import fsic
         from fsic.extensions import AliasMixin
         ctx = interp.ctx
         e = {'stored': {}, 'which': self.which}
+        same = scenario == 'check-is-endogenous'
 
         class M(fsic.BaseModel):
             ENDOGENOUS = ['Y']
             EXOGENOUS = ['X']
             NAMES = ENDOGENOUS + EXOGENOUS
-            CHECK = ['Y']
+            CHECK = ENDOGENOUS if same else ['Y']
 
         class L(fsic.BaseLinker):
             ENDOGENOUS = ['Z']
             NAMES = ENDOGENOUS
-            CHECK = ['Z']
+            CHECK = ENDOGENOUS if same else ['Z']
 
         class Al(AliasMixin, M):
             ALIASES = {'GDP': 'Y', 'out': 'GDP'}
